@@ -84,6 +84,33 @@ def handle (op : String) (j : Json) : Except String Json := do
       | some r => Json.mkObj [("eq", boolValJson (eqChar (f c) r))]
       | none => errJ
     pure (reply m (some s))
+  | "observe_m" =>
+    -- a program followed by an observation computed in the model (== string/array, != char, np.where, len)
+    let dec ← getNatList j "dec"
+    let f : Nat → Nat := fun c => dec.getD c 0
+    let v ← parseVal (← j.getObjVal? "v")
+    let ops ← (← getArr j "ops").mapM parseOp
+    let kind ← getStr j "obs"
+    let o : Obs Nat ← match kind with
+      | "eqstr" | "eqarr" => pure (Obs.eqStr (← getNatList j "s"))
+      | "neqchar" => pure (Obs.neChar (← getNat j "c"))
+      | "where" => do
+        let a ← getArr j "m"
+        pure (Obs.whereWith (← a.mapM (·.getBool?)) (← getNatList j "s"))
+      | "len" => pure Obs.len
+      | _ => throw s!"bad obs {kind}"
+    let resJ : ObsRes Nat → Json := fun r => match r with
+      | .bools b => Json.mkObj [("obs", boolValJson b)]
+      | .boolList l => Json.mkObj [("obs", boolList l)]
+      | .text l => Json.mkObj [("obs_text", natList l)]
+      | .num n => Json.mkObj [("obs", nat n)]
+    let m := match (run v ops).bind (observe o) with
+      | some r => resJ (r.map f)
+      | none => errJ
+    let s := match (run (v.map f) (ops.map (Op.map f))).bind (observe (o.map f)) with
+      | some r => resJ r
+      | none => errJ
+    pure (reply m (some s))
   | "strequal" =>
     let r ← getNatListList j "r"
     let s ← getNatList j "s"
